@@ -102,6 +102,26 @@ func (g *gen) checkpointRound(full bool) {
 	}
 }
 
+// slowWrite: the snapshot file write of checkpoint N is held by the storage; N+1 (or more) is started, acknowledged and
+// published meanwhile (or not); the write returns; a member is lost and the job redeploys
+func (g *gen) slowWrite() {
+	g.add(jop{K: "holdw"})
+	g.checkpointRound(true) // N: fully acknowledged, write held
+	for k := g.r.Intn(3); k > 0; k-- {
+		g.checkpointRound(g.r.Chance(4, 5)) // N+1..: published normally
+	}
+	if g.r.Chance(1, 5) { // the failure strikes while the write is still held
+		g.fault()
+		g.recoverNodes()
+		g.add(jop{K: "relw"}, jop{K: "fin", OK: true})
+		return
+	}
+	g.add(jop{K: "relw"})
+	g.fault()
+	g.recoverNodes()
+	g.add(jop{K: "fin", OK: g.r.Chance(5, 6), N: g.r.Intn(8)}, jop{K: "fin", OK: true})
+}
+
 func (g *gen) noise() {
 	switch g.r.Intn(7) {
 	case 0:
@@ -188,7 +208,12 @@ func genCase(r *hx.Rand, idx int, tier string) *hx.Case {
 			g.recoverNodes()
 			g.add(jop{K: "fin", OK: r.Chance(5, 6), N: r.Intn(8)}, jop{K: "fin", OK: true})
 			g.checkpointRound(r.Chance(3, 4))
-		case 7: // heartbeat round
+		case 7: // heartbeat round, or slow storage
+			if r.Bool() {
+				g.slowWrite()
+				g.checkpointRound(true)
+				break
+			}
 			g.add(jop{K: "adv", N: g.deadline / 3}, jop{K: "hb"})
 		case 8:
 			g.noise()
